@@ -529,6 +529,7 @@ impl Runtime for InvocationCtx<'_> {
         let from_id = self.resolve_address(&self.to()).unwrap();
 
         // fault plan: force this nested send to abort (models the callee running out of gas)
+        let mut abort_after: Option<u32> = None;
         {
             let ord = *self.v.send_ordinal.borrow();
             self.v.send_ordinal.replace(ord + 1);
@@ -541,9 +542,16 @@ impl Runtime for InvocationCtx<'_> {
                     && r.method.is_none_or(|m| m == method)
                     && r.ordinal.is_none_or(|o| o == ord)
                 {
-                    hit = Some(r.exit);
+                    if r.after {
+                        abort_after = Some(r.exit);
+                    } else {
+                        hit = Some(r.exit);
+                    }
                     break;
                 }
+            }
+            if abort_after.is_some() {
+                plan.hits += 1;
             }
             if let Some(code) = hit {
                 plan.hits += 1;
@@ -577,7 +585,13 @@ impl Runtime for InvocationCtx<'_> {
             subinvocations: RefCell::new(vec![]),
             events: RefCell::new(vec![]),
         };
-        let res = new_ctx.invoke();
+        let prior_root = self.v.checkpoint();
+        let mut res = new_ctx.invoke();
+        if let (Some(code), true) = (abort_after, res.is_ok()) {
+            // the callee ran to completion and then aborts: roll everything it did back
+            self.v.rollback(prior_root);
+            res = Err(ActorError::unchecked(ExitCode::new(code), "forced abort after execution".to_string()));
+        }
         let invoc = new_ctx.gather_trace(res.clone());
         RefMut::map(self.subinvocations.borrow_mut(), |subinvocs| {
             subinvocs.push(invoc);
